@@ -393,7 +393,7 @@ def run(ctx):
     rf = gen.Rng(ctx.seed * 1000003 + 202)
     for i in range(3 if ctx.quick else 40):
         c10.io_faults(ctx, rf.fork(), prop="C02", torn=(i % 3 == 2))
-    ctx.cov["rule"] = ("system-call programs of every writer kind (one exclusive non-blocking flock; the log read after it and before the single write / tmp+rename; unlock last); pairs of "
+    ctx.cov["rule"] = ("init ∥ writer on five layouts of .ergo/ (log and lock present or not, legacy name) with either one parked after each of its calls (stat calls included): acknowledged work in effect afterwards; every process's calls on the lock file through the automaton of ErgoModel.LockFile; system-call programs of every writer kind (one exclusive non-blocking flock; the log read after it and before the single write / tmp+rename; unlock last); pairs of "
                        "generated commands A ∥ B with A parked (strace SIGSTOP) at first/middle/last (thorough: every) point while holding the lock: B must fail fast with lock busy and write nothing, "
                        "A's outcome must equal A alone; 2–5 commands started together: whole JSON lines, no interleaving, and the final state equals the acknowledged commands run one at "
                        "a time in log order on a twin store with the same scripted RNG")
